@@ -30,8 +30,13 @@ package auth
 //@
 //@   -- C04: every credential failure is reported for the account attempted; a
 //@   -- correct password never is
-//@   ensures[C04] fail_reported: each Hash.Compare(_, _) -> ?ce => ce != nil ==>
+//@   -- (C16(c): a wrong password for a known account always takes the reported-failure route,
+//@   -- whatever the reason the hasher gives, so that it can end in the same page as an unknown account)
+//@   ensures[C04,C16] fail_reported: each Hash.Compare(_, _) -> ?ce => ce != nil ==>
 //@       after Fire("After", EventAuthFail, ?cu, _, _) :: before Store.Load(_) -> (?u, _) :: cu == u
+//@   -- C04/C03: the handlers that treat the attempt as a correct password (before-auth, hijack)
+//@   -- only run once the password was in fact accepted
+//@   ensures[C04,C03] veto_after_credentials: each Fire("Before", _, _, _, _) => before Hash.Compare(_, _) -> ?ce :: ce == nil
 //@   ensures[C04] correct_not_failure: each Fire(_, EventAuthFail, _, _, _) =>
 //@       before Hash.Compare(_, _) -> ?ce :: ce != nil
 //@
